@@ -156,6 +156,7 @@ func runC17(r *kit.Run) {
 			r.Violation("C17/"+opName+"/"+kind, i, caseDesc, detail, nil)
 		}
 		r.Eval()
+		r.Current(i, fmt.Sprintf("C17 %s of %v with %s", opName, keys, cm.name))
 		if len(in) >= 2 {
 			r.Distinct(opName + "|" + class + "|" + cm.name + "|" + lenClass(len(in)))
 		}
@@ -195,6 +196,21 @@ func runC17(r *kit.Run) {
 						return
 					}
 				}
+				// the same elements, not copies of their values: every handle
+				// taken before the sort is still a member, and the walk meets
+				// nothing but those handles
+				for e := l.Front(); e.Ok(); e = e.Next() {
+					if !handles[e] {
+						viol("not-the-previous-elements", fmt.Sprintf("after the sort the list holds an element (%v) that is not one of its previous elements", e.Value()))
+						return
+					}
+				}
+				for h := range handles {
+					if !h.In(l) || !h.Ok() {
+						viol("not-the-previous-elements", fmt.Sprintf("element %v held before the sort is no longer a member (In=%v Ok=%v)", h.Value(), h.In(l), h.Ok()))
+						return
+					}
+				}
 				for j := 1; j < len(out); j++ {
 					if cm.strict(out[j], out[j-1]) {
 						viol("out-of-order", fmt.Sprintf("position %d (%v) is less than its predecessor (%v): %v", j, out[j], out[j-1], out))
@@ -228,6 +244,44 @@ func runC17(r *kit.Run) {
 				if sl := []kv(l.Slice()); fmt.Sprint(sl) != fmt.Sprint(out) {
 					viol("unusable-after-sort", fmt.Sprintf("Slice() %v differs from walk %v", sl, out))
 					return
+				}
+				if len(in) >= 2 {
+					// a handle taken before the sort removes exactly its element
+					var victim *dt.Element[kv]
+					for h := range handles {
+						if victim == nil || h.Value().UID < victim.Value().UID {
+							victim = h
+						}
+					}
+					vu := victim.Value().UID
+					if !victim.Remove() || l.Len() != len(in)-1 {
+						viol("unusable-after-sort", fmt.Sprintf("Remove() through a handle taken before the sort failed (Len=%d of %d)", l.Len(), len(in)))
+						return
+					}
+					after, _ := listKV(l, len(in))
+					for _, x := range after {
+						if x.UID == vu {
+							viol("unusable-after-sort", fmt.Sprintf("element uid %d removed through its handle is still met by the walk: %v", vu, after))
+							return
+						}
+					}
+					// put an equal element back where it was for the checks below
+					idx := 0
+					for k, x := range out {
+						if x.UID == vu {
+							idx = k
+						}
+					}
+					ne := dt.NewElement(out[idx])
+					if idx == 0 {
+						l.PushFront(out[idx])
+					} else {
+						p := l.Front()
+						for k := 1; k < idx; k++ {
+							p = p.Next()
+						}
+						p.Append(ne)
+					}
 				}
 				l.PushBack(kv{99, 1000})
 				l.PushFront(kv{-99, 1001})
